@@ -19,7 +19,10 @@ Definition is_int_float (x : float) : bool :=
 Definition value_str (v : val) : option bytes :=
   match v with
   | VNum x true => Some (if PrimFloat.eqb x 0 then [70;65;76;83;69] else [84;82;85;69])
-  | VNum x false => if is_int_float x then Some (itoa (f_trunc x)) else None
+  | VNum x false =>
+    if is_int_float x
+    then Some (match PrimFloat.classify x with FloatClass.NZero => [45; 48] | _ => itoa (f_trunc x) end)   (* Go prints -0 *)
+    else None
   | VStr s => Some s
   | VUnsup => None
   end.
